@@ -174,16 +174,19 @@ Init ==
   /\ verdict = OK /\ mech = OK /\ kinds = {}
   /\ stats = [redraws |-> 0, implied |-> 0, deletes |-> 0, clears |-> 0, wops |-> 0, toks |-> 0]
 
+StepOf(e) ==
+  LET free0 == free \cup Released(e.wd) IN
+    CASE e.op \in {"redraw", "same", "bad"} -> RedrawStep(e, free0)
+      [] e.op \in {"start", "stop", "clear"} -> ClearStep(e, free0)
+      [] OTHER -> WidgetStep(e, free0)
+
+\* (the result is bound through a singleton set so that TLC evaluates the step exactly once)
 Consume ==
   /\ l < N
   /\ l' = l + 1
-  /\ LET e == Ev[l + 1]
-         free0 == free \cup Released(e.wd)
-         r == CASE e.op \in {"redraw", "same", "bad"} -> RedrawStep(e, free0)
-                [] e.op \in {"start", "stop", "clear"} -> ClearStep(e, free0)
-                [] OTHER -> WidgetStep(e, free0)
-         pv == IF r.pv.v # "ok" THEN r.pv ELSE AfterClause(e, r)
-     IN /\ T' = r.T /\ cv' = r.cv /\ nxt' = r.nxt /\ free' = r.free
+  /\ \E r \in {StepOf(Ev[l + 1])} :
+       \E pv \in {IF r.pv.v # "ok" THEN r.pv ELSE AfterClause(Ev[l + 1], r)} :
+        /\ T' = r.T /\ cv' = r.cv /\ nxt' = r.nxt /\ free' = r.free
         /\ taint' = r.taint /\ topimg' = r.topimg /\ stats' = r.st
         /\ verdict' = IF verdict.v # "ok" THEN verdict ELSE [pv EXCEPT !.topimg = r.topimg]
         /\ mech' = IF mech.v # "ok" \/ Fatal(verdict) THEN mech ELSE [r.mv EXCEPT !.topimg = r.topimg]
